@@ -358,7 +358,8 @@ def run_harness(spec, h, tier, keep_logs):
             # second run: ask the solver for the assignment of every failing check
             logpath2 = logpath[:-4] + ".playback.log"
             cmd2 = kani_cmd(h, slot, playback=True)
-            rc2, to2, wall2 = run_limited(cmd2, slot.tree, timeout * 2, h["mem_gb"], env, logpath2)
+            # the trace-producing run needs more memory than the deciding run
+            rc2, to2, wall2 = run_limited(cmd2, slot.tree, timeout * 2, h["mem_gb"] + 8, env, logpath2)
             text2 = open(logpath2, errors="replace").read()
             # Kani de-duplicates playback tests by value: an assignment that violates a check and
             # also satisfies a cover point may be printed once, labelled as the cover.  Keep the
